@@ -177,8 +177,17 @@ def run(ctx):
         "ProbLog's float arithmetic is compared with exact rationals at 1e-9",
         "weights are positive and given as ground numbers; identifiers and values are ground",
     ]
-    generate(ctx)
-    ctx.prove("C32/Props.v")
+    model_current = True
+    try:
+        generate(ctx)
+    except Exception as e:  # noqa  (fail-closed: the library clauses can no longer be turned into the model value)
+        model_current = False
+        ctx.broken.append("translator:gen/c32_liblists.py cannot translate lists.pl: %s" % (str(e)[:300],))
+        import re
+        with open(os.path.join(vf.THEORIES, "C32", "Props.v")) as f:
+            ctx.cov["obligations"] += len(re.findall(r"(?m)^\s*Theorem\s", vf.strip_coq_comments(f.read())))
+    if model_current:
+        ctx.prove("C32/Props.v")
     n = ctx.n(30, 500)
     scs = [gen_scenario(ctx.rng) for _ in range(n)]
     if ctx.replay:
